@@ -1,5 +1,6 @@
-CONSTANTS LimbBits = 2  NLimbs = 3  PB = 2  MaxOps = 4  MaxPairs = 16  Bug = ""  Emit = FALSE
+CONSTANTS LimbBits = 2  NLimbs = 3  PB = 2  MaxOps = 4  Bug = ""  Emit = FALSE
   OpKinds = {"reserve"}
+  Budgets = {3}
   Props = {"C07"}
 CONSTANT Top <- MCTop6
 CONSTANT SizesFor <- MCSizesAll
